@@ -163,8 +163,13 @@ def instances(maxw):  # noqa: C901
         dxy = dx + [['declare-const', 'y', BV(w)]]
         fxy = fx + [('y', BV(w))]
         for t in (['bvnot', ['bvnot', 'x']], ['bvneg', ['bvneg', 'x']],
-                  ['bvnot', ['bvnot', ['bvadd', 'x', 'y']]]):
+                  ['bvnot', ['bvnot', ['bvadd', 'x', 'y']]],
+                  # near misses: must be rejected or rewritten correctly
+                  ['bvnot', ['bvneg', 'x']], ['bvneg', ['bvnot', 'x']],
+                  ['bvnot', ['bvadd', 'x', 'y']]):
             add('BVDoubleNegation', Inst(dxy, t, fxy))
+        add('BVReflexiveNand', Inst(dxy, ['bvnand', 'x', 'y'], fxy))
+        add('BVReflexiveNand', Inst(dxy, ['bvnor', 'x', 'x'], fxy))
         add('BVReflexiveNand', Inst(dxy, ['bvnand', 'x', 'x'], fxy))
         add('BVReflexiveNand',
             Inst(dxy, ['bvnand', ['bvor', 'x', 'y'], ['bvor', 'x', 'y']],
@@ -176,6 +181,13 @@ def instances(maxw):  # noqa: C901
             add('BVElimBVComp', Inst(dxy, ['=', one, ['bvcomp', 'x', 'y']],
                                      fxy))
             add('BVElimBVComp', Inst(dxy, ['=', zero, ['bvcomp', 'x', 'y']],
+                                     fxy))
+            # near misses
+            add('BVIteToBVComp',
+                Inst(dxy, ['ite', ['=', 'x', 'y'], zero, one], fxy))
+            add('BVIteToBVComp',
+                Inst(dxy, ['ite', ['distinct', 'x', 'y'], one, zero], fxy))
+            add('BVElimBVComp', Inst(dxy, ['=', ['bvcomp', 'x', 'y'], one],
                                      fxy))
     # -- propositional and relational laws
     dp = [['declare-const', n, 'Bool'] for n in 'pqr']
@@ -190,6 +202,12 @@ def instances(maxw):  # noqa: C901
     for t in (['=', 'false', 'p'], ['=', 'p', 'false'],
               ['=', 'false', ['and', 'p', 'q']]):
         add('BoolEliminateFalseEquality', Inst(dp, t, fp))
+    add('BoolDoubleNegation', Inst(dp, ['not', ['and', ['not', 'p']]], fp))
+    add('BoolDeMorgan', Inst(dp, ['not', ['xor', 'p', 'q']], fp))
+    add('BoolDeMorgan', Inst(dp, ['not', ['=>', 'p', 'q']], fp))
+    add('BoolEliminateFalseEquality', Inst(dp, ['=', 'true', 'p'], fp))
+    add('BoolEliminateFalseEquality', Inst(dp, ['distinct', 'false', 'p'],
+                                           fp))
     add('BoolXOREliminateBinary', Inst(dp, ['xor', 'p', 'q'], fp))
     add('BoolXOREliminateBinary',
         Inst(dp, ['xor', ['and', 'p', 'q'], 'r'], fp))
@@ -205,6 +223,8 @@ def instances(maxw):  # noqa: C901
                  fp))
     di = [['declare-const', n, 'Int'] for n in 'ab']
     fi = [(n, 'Int') for n in 'ab']
+    add('ArithmeticNegateRelation', Inst(di, ['not', ['not', ['<', 'a',
+                                                              'b']]], fi))
     for rel in ('=', '<', '>', '<=', '>=', 'distinct'):
         add('ArithmeticNegateRelation', Inst(di, ['not', [rel, 'a', 'b']],
                                              fi))
